@@ -14,11 +14,12 @@ EXPLANATION = (
     "on what the process compiled before); (ambient) no clock, RNG, environment or pointer-address read on that path. "
     "Byte equality of outputs is not decided."
 )
-ITER_METHODS = ("iter", "iter_mut", "into_iter", "keys", "values", "values_mut", "drain", "into_keys", "into_values")
+ITER_METHODS = ("iter", "iter_mut", "into_iter", "keys", "values", "values_mut", "drain", "into_keys", "into_values", "difference", "intersection", "union", "symmetric_difference", "range", "range_mut", "extract_if", "drain_filter")
 ADAPTERS = ("map", "filter", "filter_map", "cloned", "copied", "flat_map", "flatten", "inspect", "chain", "zip", "peekable", "by_ref", "map_while", "into_iter", "rev")
 POSITIONAL = ("enumerate", "take", "skip", "step_by", "nth", "last", "take_while", "skip_while", "position")
 INSENSITIVE = ("max", "min", "max_by_key", "min_by_key", "max_by", "min_by", "sum", "product", "count", "any", "all", "is_empty", "len", "contains", "for_each_insensitive")
 FIRST_MATCH = ("find", "find_map", "next", "position", "rposition", "reduce", "fold", "try_fold", "for_each", "unzip", "partition")
+SHARED_ID_TYPES = ("interner::Symbol",)
 ID_TYPES = ("interner::Symbol", "interner::TypeNodeId", "interner::ExprNodeId", "interner::ExprKey", "interner::NodeId", "types::TypeSchemeId", "interner::TypeKey")
 
 
@@ -46,12 +47,18 @@ def container_kind(c, full, a0):
         return "HashSet"
     if "BTreeMap" in head or "BTreeSet" in head or "btree" in head:
         # key type: first generic argument of the receiver / of the full callee path
-        src = recv if "<" in recv else (full or "")
-        k = src.split("<", 1)[1] if "<" in src else ""
-        k = k.split(",", 1)[0].split(">", 1)[0].strip()
-        k = k.replace("mimium_lang::", "")
-        if any(k == t or k.endswith(t) for t in ID_TYPES):
-            return "BTree-by-id"
+        # (the declared path names the generic parameter, `BTreeSet::<T, A>::difference`; the instantiated path and the
+        # first generic argument name the key type)
+        for src in (recv, full or "", "<%s>" % (a0 or "")):
+            k = src.split("<", 1)[1] if "<" in src else ""
+            k = k.split(",", 1)[0].split(">", 1)[0].strip()
+            k = k.replace("mimium_lang::", "")
+            # only ids that are shared between compilations order by history: a `Symbol` is the index of a spelling
+            # in the process-wide string interner (first job to mention it decides).  Expression / type node ids are
+            # fresh slot-map keys, never deduplicated: their relative order inside one compilation is its own
+            # creation order, whatever else the process compiled.
+            if any(k == t or k.endswith(t) for t in SHARED_ID_TYPES):
+                return "BTree-by-id"
     return None
 
 
@@ -325,7 +332,8 @@ def _foreign_key_inserts(f, next_block, body):
     return None
 
 
-def rule_hash_iteration(ck, facts, cg, par):
+def rule_hash_iteration(ck, facts, cg, par, kinds=None):
+    """kinds: restrict to these container kinds (C19 runs the ordered-by-shared-id part only)"""
     R = "C15.hash"
     ck.rule(R, "every iteration over a HashMap/HashSet (or an ordered map keyed by an interner id) reachable from the compile entry points has an order-insensitive consumer, or is audited")
     n = 0
@@ -341,7 +349,7 @@ def rule_hash_iteration(ck, facts, cg, par):
             if name not in ITER_METHODS:
                 continue
             kind = container_kind(c, callee_full(t), t[4].get("a0"))
-            if kind is None:
+            if kind is None or (kinds and kind not in kinds):
                 continue
             # skip the desugared `IntoIterator::into_iter(x.iter())` second hop
             di = di or DefIndex(f)
@@ -364,7 +372,8 @@ def rule_hash_iteration(ck, facts, cg, par):
                     "for-insert-foreign-key": "a loop that inserts into a map under a key taken from the element's value (two elements can carry the same key, and then the one iterated last wins)",
                 }.get(term, "consumed by `%s`, whose result depends on iteration order" % term)
                 ck.bad(R, key, "%s iterates a %s and the result is %s: the outcome depends on the per-process hash seed%s" % (f.short, kind, why, " / interning history" if kind == "BTree-by-id" else ""), f.where(t))
-    ck.floor(R, "unordered_iteration_sites", n, 12)
+    if not kinds:
+        ck.floor(R, "unordered_iteration_sites", n, 12)
 
 
 def rule_id_order(ck, facts, cg, par):
